@@ -1,8 +1,8 @@
 SPECIFICATION Spec
 CONSTANTS
-  Component = "mixed"
+  Component = "small"
   Precisions = {1, 4, 8, 12}
-  NMixed = 300
+  NMixed = 0
   NShards = 16
   DEV_XmlDropsHorn = FALSE
   DEV_ReaderStopsAtFirstUnset = FALSE
@@ -10,6 +10,7 @@ INVARIANT LawIdempotent
 INVARIANT LawIdentityOnCarried
 INVARIANT LawPopulatedPreserved
 INVARIANT LawExpectedPopulated
+INVARIANT LawCarriedMonotone
 INVARIANT LawAccepts
 INVARIANT LawImplConforms
 INVARIANT LawSchema
